@@ -20,7 +20,8 @@ from common import driver
 from props import c26_models as M
 from props import c26_sweep as S
 
-MODELLED = ["AlgTrans", "LFRicAlgTrans", "OMPTaskTrans", "LoopTiling2DTrans", "ChunkLoopTrans (as step of tiling)", "LoopSwapTrans (as step of tiling)",
+MODELLED = ["AlgTrans", "LFRicAlgTrans", "OMPTaskTrans", "GOceanExtractTrans", "LFRicExtractTrans",
+            "KernelModuleInlineTrans", "Sign2CodeTrans", "CreateNemoPSyTrans", "LoopTiling2DTrans", "ChunkLoopTrans (as step of tiling)", "LoopSwapTrans (as step of tiling)",
             "OMPLoopTrans", "GOceanOMPLoopTrans", "Dynamo0p3OMPLoopTrans", "OMPParallelLoopTrans",
             "Sum2LoopTrans", "Product2LoopTrans", "Maxval2LoopTrans", "Minval2LoopTrans",
             "ArrayAssignment2LoopsTrans"]
@@ -109,6 +110,28 @@ subroutine a2lfam(a, b, c, d, idx, n)
   write(*, *) a(1)
 end subroutine a2lfam
 """,
+    "inlclash": """
+module work_mod
+  implicit none
+contains
+  subroutine bump(x)
+    use data_mod, only: tmp, val, cnt
+    integer, intent(inout) :: x
+    x = x + 1 + tmp + val + cnt
+  end subroutine bump
+  subroutine driver(a)
+    use data_mod, only: tmp, cnt
+    integer, intent(inout) :: a
+    integer :: val
+    val = 5
+    if (a > 0) then
+      call bump(a)
+      WRITE(*,*) "near", vAL
+    end if
+    a = a + val + tmp + cnt
+  end subroutine driver
+end module work_mod
+""",
     "tile": """
 subroutine tile(a, b, n, m)
   integer, intent(in) :: n, m
@@ -188,6 +211,12 @@ STEP_SIZES = [None, 2, 4, 8, 32, 40]
 EXTRA["steps"] = _steps_source()
 
 
+def gen():
+    """translator: protocol skeletons of every apply() of the live tree -> Gen/AtomicSkel.lean"""
+    from props import c26_skel
+    return {"PsyVerif/Gen/AtomicSkel.lean": c26_skel.generate(S.all_transformations())}
+
+
 def _spec_of(name):
     if name in EXTRA:
         return {"kind": "minif", "name": name, "source": EXTRA[name]}
@@ -204,6 +233,8 @@ def classify(rec, findings):
             continue
         opt = rec.get("options")
         if c.get("option") and not (isinstance(opt, dict) and opt.get(c["option"])):
+            continue
+        if c.get("where_contains") and c["where_contains"] not in str(rec.get("where")):
             continue
         diff = json.dumps(rec.get("diff") or {})
         if c.get("diff_contains") and c["diff_contains"] not in diff:
@@ -286,7 +317,7 @@ def model_cases(chk, rng, budget_s):
         for size in STEP_SIZES:
             if outer:
                 first.append(("tile", sprog, p, None if size is None else {"tilesize": size}))
-            if size in (None, 4, 8) or outer:
+            if size in (None, 4, 8) and (not outer or chk.tier != "quick"):
                 first.append(("chunk", sprog, p, None if size is None else {"chunksize": size}))
         if outer:
             first.append(("swap", sprog, p, None))
@@ -295,20 +326,49 @@ def model_cases(chk, rng, budget_s):
     atree = aprog.fresh()
     for n in atree.root.walk(Assignment):
         apath = S.path_of(n, atree.root)
-        for o in (None, {}, {"verbose": False}, {"verbose": True}, {"allow_string": True},
-                  {"allow_string": True, "verbose": True}):
+        for o in ((None, {}, {"verbose": True}, {"allow_string": True}) if chk.tier == "quick" else
+                  (None, {}, {"verbose": False}, {"verbose": True}, {"allow_string": True},
+                   {"allow_string": True, "verbose": True})):
             first.append(("a2l", aprog, apath, o))
+    for spec_e, cname_e in (({"kind": "psy", "api": "gocean1.0", "file": "gocean1p0/single_invoke_two_kernels.f90",
+                               "dm": True}, "GOceanExtractTrans"),
+                             ({"kind": "psy", "api": "gocean1.0", "file": "gocean1p0/single_invoke.f90",
+                               "dm": False}, "GOceanExtractTrans"),
+                             ({"kind": "psy", "api": "lfric", "file": "dynamo0p3/1_single_invoke.f90",
+                               "dm": True}, "LFRicExtractTrans")):
+        if chk.tier == "quick" and spec_e["api"] == "lfric":
+            continue
+        for kind_e in ("loop", "bad"):
+            for drv in (False, True):
+                if chk.tier == "quick" and kind_e == "bad" and drv:
+                    continue
+                first.append(("ext", None, spec_e, cname_e, kind_e, drv))
+    for variant in ("first", "same", "different"):
+        first.append(("kmi", None, variant))
+    mprog = progs["mix"]
+    for n in mprog.fresh().root.walk(IntrinsicCall):
+        if n.routine.name.upper() in ("SIGN", "ABS", "MAX"):
+            first.append(("sign", mprog, S.path_of(n, n.root)))
     for flags in ([1], [0], [1, 1], [1, 0], [0, 1], [1, 1, 0], [1, 0, 1], [1, 1, 1]):
         for cname in ("AlgTrans", "LFRicAlgTrans"):
             first.append(("alg", None, cname, flags, True))
     first.append(("alg", None, "AlgTrans", [1, 1], False))
     jobs = first + jobs
+    kind_time = collections.Counter()
+    chk.cov["model_case_seconds"] = kind_time
     for k, j in enumerate(jobs):
         if k >= len(first) and time.time() > t_end:
             break
+        t_case = time.time()
         try:
             if j[0] in ("tile", "chunk", "swap"):
                 c = M.case_tiling(j[1], j[2], j[3], j[0])
+            elif j[0] == "ext":
+                c = M.case_extract(j[2], j[3], j[4], j[5])
+            elif j[0] == "kmi":
+                c = M.case_kmi(j[2])
+            elif j[0] == "sign":
+                c = M.case_sign(j[1], j[2])
             elif j[0] == "alg":
                 c = M.case_alg(j[2], j[3], j[4])
             elif j[0] == "omp":
@@ -319,6 +379,7 @@ def model_cases(chk, rng, budget_s):
                 c = M.case_a2l(j[1], j[2], j[3])
         except Exception as err:  # pylint: disable=broad-except
             raise common.Infra(f"model case {j[0]} on {getattr(j[1], 'name', j[2])}: {type(err).__name__}: {err}") from err
+        kind_time[j[0]] = round(kind_time[j[0]] + time.time() - t_case, 2)
         if c is not None:
             c["kind"] = j[0]
             c.setdefault("program", j[1].spec if j[1] is not None else None)
@@ -328,7 +389,7 @@ def model_cases(chk, rng, budget_s):
 def attempt_of_case(c):
     """(trans, variant, target, options) of a model case, for replay files"""
     d = c["desc"]
-    if c["kind"] in ("tile", "chunk", "swap", "alg"):
+    if c["kind"] in ("tile", "chunk", "swap", "alg", "ext", "kmi", "sign"):
         return d[0], "", ["node", d[1]], d[2]
     if c["kind"] == "omp":
         return d[0], d[1], ["node", d[2]], d[3]
@@ -366,7 +427,7 @@ def run(chk):
         "harness/props/c26_models.py (abstraction of real targets and results)",
         "harness/props/c26_sweep.py snapshot function (what counts as 'the code and its symbol tables')"]
     t0 = time.time()
-    chk.lean()
+    chk.lean(gen=gen)
     chk.cov["timing_s"] = {"lean_build_and_audit": round(time.time() - t0, 1)}
     cwd = os.getcwd()
     scratch = S.scratch_dir()
@@ -403,7 +464,7 @@ def _run(chk, quick, rng, findings):
                        where=res.get("where"), diff=res.get("diff"))
             report(rec, "corpus/" + os.path.basename(path))
     # -- correspondence of the modelled transformations -----------------------------------------------
-    cases = list(model_cases(chk, rng, 25 if quick else 300))
+    cases = list(model_cases(chk, rng, 10 if quick else 300))
     outs = driver("C26", [c["line"] for c in cases])
     dist = collections.Counter()
     for c, mo in zip(cases, outs):
@@ -428,7 +489,7 @@ def _run(chk, quick, rng, findings):
     chk.cov["model_distribution"] = dict(dist)
     chk.cov["timing_s"]["corpus_and_models"] = round(time.time() - t_start, 1)
     # -- the sweep (exploration) ----------------------------------------------------------------------
-    budget = (65 if quick else 1320) - (time.time() - t_start)
+    budget = 45 if quick else max(600, 1320 - (time.time() - t_start))
     specs = S.program_specs(rng, 2 if quick else 6, nstmts=3 if quick else 5)
     specs += [_spec_of(n) for n in EXTRA]
     if quick:
@@ -446,6 +507,9 @@ def _run(chk, quick, rng, findings):
     late = collections.Counter()
     other, programs_done, attempts = {}, [], 0
     classes = list(S.all_transformations())
+    from props import c26_skel
+    live_safe = {c.__name__ for c in classes if c26_skel.is_safe(c26_skel.skeleton(c))}
+    safe_names = live_safe & set(c26_skel.EXPECTED_SAFE)
     t0 = time.time()
     hist_budget = budget * (0.12 if quick else 0.25)      # two-step sweep: programs with a history
     budget -= hist_budget
@@ -460,6 +524,7 @@ def _run(chk, quick, rng, findings):
             sw = S.Sweep(prog, rng, time.time() + share, stats)
         except Exception as err:  # pylint: disable=broad-except
             raise common.Infra(f"cannot build program {prog.name}: {type(err).__name__}: {err}") from err
+        sw.safe_skeletons = safe_names
         order = [c for c in classes if c not in changed]
         rng.shuffle(order)
         if changed:      # change-directed budget: changed classes first, unpruned, every option
@@ -472,6 +537,10 @@ def _run(chk, quick, rng, findings):
         attempts += sw.n
         programs_done.append({"program": prog.name, "attempts": sw.n, "complete": not sw.out_of_time()})
         late.update(sw.late)
+        for nc in sw.nonconforming[:3]:
+            chk.correspondence_broken(
+                "protocol skeleton says no mutation precedes a refusal, but the monitor saw one", nc,
+                "safe skeleton (Gen/AtomicSkel.lean)", nc["events"])
         if "pre" not in spec:
             for cname, (v, t, o) in sw.accepted.items():
                 seeds_of_history.append(dict(spec, pre=[[cname, v, t, o]]))
@@ -498,6 +567,7 @@ def _run(chk, quick, rng, findings):
             continue          # the history is not reproducible on a fresh tree: skip it
         order = list(classes)
         rng.shuffle(order)
+        sw.safe_skeletons = safe_names
         sw.run(order, prune_after=2, keep=0.03, max_opts=(4 if quick else 12))
         attempts += sw.n
         hist_done.append({"program": prog.name, "after": spec["pre"][0][0], "attempts": sw.n})
@@ -510,16 +580,30 @@ def _run(chk, quick, rng, findings):
             key = f"{rec['trans']}: {rec['outcome'][6:]}: {rec['message'][:70]}"
             other.setdefault(key, {"program": prog.name, "pre": spec["pre"], "target": rec["target"],
                                    "options": rec["options"]})
+    chk.cov["traces_validated_against_impl"] += stats.get("monitored", 0)
     chk.cov["evaluations"] += attempts
     chk.cov["history_sweep"] = hist_done
     chk.cov["exploration_only"] = {
         "what": "generic differential sweep (not proof): transformations covered only by it are all concrete "
                 "Transformation subclasses except those under 'proved_for'",
         "transformations_swept": [c.__name__ for c in classes],
-        "proved_for": MODELLED,
+        "proved_for": {"hand_written_models": MODELLED,
+                       "safe_protocol_skeleton (translator c26_skel.py + C26_safe_skeleton_atomic)": sorted(safe_names)},
+        "skeleton_no_longer_safe": sorted(set(c26_skel.EXPECTED_SAFE) - live_safe),
+        "sweep_only": sorted(c.__name__ for c in classes
+                             if c.__name__ not in safe_names and c.__name__ not in MODELLED),
         "attempts": attempts, "outcomes": dict(stats), "programs": programs_done,
         "refusals_raised_after_validate": {f"{k[0]} @ {k[1]}": v for k, v in sorted(late.items())},
     }
+    # witnesses of exceptions that are NOT TransformationError but leave the tree modified (outside the property)
+    for path in sorted(glob.glob(os.path.join(common.ROOT, "corpus", "C26", "other", "*.json"))):
+        w = json.load(open(path))
+        res = rerun(w)
+        if res["outcome"].startswith("error") and res["changed"]:
+            other.setdefault(f"{w['trans']}: {res['outcome'][6:]}: {res['message'][:70]}",
+                             {"program": w["program"].get("name") or w["program"].get("file"),
+                              "target": w["target"], "options": w["options"], "what": w.get("what", ""),
+                              "witness": "corpus/C26/other/" + os.path.basename(path)})
     chk.cov["other_exceptions_with_mutation"] = other
     chk.cov["corpus_witnesses"] = n_corpus
     chk.cov["timing_s"]["sweep"] = round(time.time() - t0, 1)
